@@ -256,6 +256,8 @@ package frame
 //@   modifies nothing
 //@   ensures whole-frame [C05]: result1 == nil ==> len(result0) == len(f.data) + offset + overhead && base(result0) == base(f.pooledSlice) && off(result0) == off(f.pooledSlice) + f.psDataOffset - offset && offset <= f.psDataOffset
 //@   ensures error-nil: result1 != nil ==> result0 == nil
+// a frame that fits its buffer with the requested margins is always written, also when it fills the buffer exactly
+//@   ensures fits-means-ok [C05,C10]: (f.pooledSlice != nil && offset <= f.psDataOffset && f.psDataOffset + len(f.data) + overhead <= len(f.pooledSlice)) ==> result1 == nil
 
 //@ func Builder.ParseFrame
 //@   requires b != nil && 0 <= dataOffset && dataOffset <= 65536
